@@ -663,7 +663,7 @@ func c01NoSpaceAtomic(w *World, r *Report) {
 		}
 	}
 	if n == 0 {
-		r.Fail("C01-c", "filesystem/fat12", "out-of-space return", "filesystem/fat12", "no out-of-space return found in the allocator")
+		r.Undecided("C01-c", "filesystem/fat12", "out-of-space return", "filesystem/fat12", "no out-of-space return found in the allocator: the rule's anchor is gone or has a shape this analysis does not recognise")
 	}
 }
 
@@ -1086,7 +1086,7 @@ func c01ScanStart(w *World, r *Report) {
 		}
 	}
 	if n == 0 {
-		r.Fail("C01-d", fnName(as), "free-cluster scan start", w.relFile(as.Pos()), "no scan over ClusterValue(i) found in allocateSpace")
+		r.Undecided("C01-d", fnName(as), "free-cluster scan start", w.relFile(as.Pos()), "no scan over ClusterValue(i) found in allocateSpace or its helpers: the allocator has a shape this analysis does not recognise")
 		return
 	}
 	if len(hintFields) == 0 {
